@@ -14,7 +14,8 @@ cleanup() {
 trap cleanup EXIT
 git -C /repo worktree remove --force $WT 2>/dev/null; rm -rf $WT $SIMD $OUTD $MIRID
 git -C /repo worktree add -q --detach $WT HEAD || exit 2
-git -C $WT apply "$PATCH" || { echo "PATCH-DOES-NOT-APPLY $PATCH"; exit 2; }
+# (later fix: commits move lines; fall back to reduced context, then to patch(1) with fuzz)
+git -C $WT apply "$PATCH" 2>/dev/null || git -C $WT apply -C1 "$PATCH" 2>/dev/null || patch -s -p1 -F3 -d $WT < "$PATCH" || { echo "PATCH-DOES-NOT-APPLY $PATCH"; exit 2; }
 mkdir -p $SIMD $OUTD
 rsync -a /verif/sim/ $SIMD/
 sed -i "s|path = \"/repo\"|path = \"$WT\"|" $SIMD/Cargo.toml
